@@ -69,7 +69,7 @@ def handle (args : List String) : String :=
   | "gauss" :: r :: c :: toks =>
     match r.toNat?, c.toNat? with
     | some rows, some cols =>
-      if rows = 0 ∨ cols = 0 then "bad-op"
+      if rows = 0 then "bad-op"
       else
         match parseMat rows cols toks with
         | none => "bad-op"
